@@ -5,9 +5,8 @@
    Ok path every from_utf8 of the block phase succeeded), with c = rtrim_slice content:
        c = [] \/ (has_nul c = false /\ utf8_valid c = true /\ line_endings c < |line_offsets|)
    and for a TableCell also first_line_not_blank c (the cell is `trim`med and holds no line end).
-   NOT PROVED here: first_line_not_blank for a Paragraph / Heading leaf (it needs the cursor invariant of add_text_to_container:
-   the line suffix add_line appends to a fresh leaf starts at first_nonspace of a non-blank line).  It is the premise of
-   inline_phase_total_blocks. *)
+   The clause first_line_not_blank for Paragraph / Heading leaves is Proofs/LeafPremFirst.v (assembled in
+   Proofs/LeafPremFirstMain.v); here it is still the premise of inline_phase_total_blocks. *)
 From Coq Require Import List NArith Arith Bool Lia Strings.String.
 From V Require Import Base.Bytes Base.Res Gen.StrLeafGen Model.Ast Model.Strings Spec.EscapeSpec Model.RefDef Model.Blocks Model.Inlines Model.Parse
   Spec.ParseValidSpec Proofs.StrLeafProofs Proofs.BlocksProofs Proofs.BlocksPos Proofs.BlocksTotal Proofs.BlocksTotal6Val Proofs.InlinesTotal2
